@@ -52,6 +52,7 @@ def parseFail : List String → Option Fail
   | ["rm", "before", "finish"] => some .afterVote
   | ["store", j] => j.toNat?.map .store
   | ["vote"] => some .vote
+  | ["pickle", i] => i.toNat?.map .pickle
   | _ => none
 
 def parseOp : List String → Option Op
